@@ -546,14 +546,82 @@ def Grace.run := RV.Isolation.run (Op := GOp) Grace.apply Grace.glob
 def Grace.runM := RV.Isolation.run (Op := MOp) MOp.apply Grace.glob
 def ExpStore.run := RV.Isolation.run (Op := EOp) ExpStore.apply ExpStore.glob
 
-/-! ## the dynamic watch registry (`watchedWorkload`, a `sync.Map` keyed by the workload GVK) -/
+/-! ## the dynamic watch registry (`watchedWorkload`, a `sync.Map` keyed by the workload GVK)
 
-/-- the part of `Reconcile` before `handleFinalizer`: `(registry', watchAdded, returnsEarly)`;
-    `discovered`: `AddWatcherDynamically` found the GVK and `Watch` succeeded -/
-def reconcileWatch (watched : List String) (gvk : String) (discovered : Bool) : List String × Bool × Bool :=
-  if watched.contains gvk then (watched, false, false)
-  else if discovered then (if watched.contains gvk then watched else watched ++ [gvk], true, true)
-  else (watched, false, false)
+  `pkg/controller/rollout/rollout_controller.go` and `pkg/controller/batchrelease/batchrelease_controller.go`
+  have the same lines at the top of `Reconcile`:
+
+      _, exists := watchedWorkload.Load(gvk)
+      if !exists {
+          succeeded, err := util.AddWatcherDynamically(runtimeController, workloadHandler, gvk)
+          if err != nil { return ctrl.Result{}, err }
+          else if succeeded { watchedWorkload.LoadOrStore(gvk, struct{}{}); return ctrl.Result{}, nil }
+      }
+-/
+
+/-- result of `util.AddWatcherDynamically`: `(false, nil)` the GVK is not served; `(true, err)` `Watch` failed;
+    `(true, nil)` the watcher is established -/
+inductive AddRes where
+  | notServed | err | added
+  deriving Repr, DecidableEq, Inhabited
+
+/-- how the watch part of `Reconcile` ends -/
+inductive WatchOut where
+  /-- falls through to the rest of `Reconcile` -/
+  | proceed
+  /-- `return ctrl.Result{}, err` -/
+  | error
+  /-- `return ctrl.Result{}, nil`: wait for the informer cache -/
+  | early
+  deriving Repr, DecidableEq, Inhabited
+
+/-- first half: `Load`; `true` = the reconcile goes on to call `AddWatcherDynamically` -/
+def watchStart (watched : List String) (gvk : String) : Bool := !watched.contains gvk
+
+/-- second half, for a reconcile that called `AddWatcherDynamically` and got `res`: the kind is registered
+    only after success; an error returns the error and leaves the registry unchanged -/
+def watchFinish (watched : List String) (gvk : String) (res : AddRes) : List String × WatchOut :=
+  match res with
+  | .err => (watched, .error)
+  | .added => (if watched.contains gvk then watched else watched ++ [gvk], .early)     -- LoadOrStore
+  | .notServed => (watched, .proceed)
+
+/-- the watch part of one `Reconcile` that nothing interleaves with:
+    `(registry', AddWatcherDynamically was called, how it ends)` -/
+def reconcileWatch (watched : List String) (gvk : String) (res : AddRes) : List String × Bool × WatchOut :=
+  if watchStart watched gvk then
+    let r := watchFinish watched gvk res
+    (r.1, true, r.2)
+  else (watched, false, .proceed)
+
+/-- the workers of one controller, at the granularity at which they interleave: `start r gvk` is rollout `r`'s
+    reconcile doing its `Load`, `finish r gvk res` is its `AddWatcherDynamically` returning (no effect if that
+    reconcile found the kind registered and never called it) -/
+inductive WEv where
+  | start (r : Nat) (gvk : String)
+  | finish (r : Nat) (gvk : String) (res : AddRes)
+  deriving Repr, DecidableEq, Inhabited
+
+structure WState where
+  registry : List String
+  /-- reconciles that are between their `Load` (kind absent) and the return of `AddWatcherDynamically` -/
+  inflight : List Nat
+  /-- kinds for which some `Watch` call has succeeded (ghost: what the recording controller saw) -/
+  succeeded : List String
+  deriving Repr, DecidableEq, Inhabited
+
+def WState.step (s : WState) : WEv → WState
+  | .start r gvk => if watchStart s.registry gvk then { s with inflight := r :: s.inflight } else s
+  | .finish r gvk res =>
+    if s.inflight.contains r then
+      { registry := (watchFinish s.registry gvk res).1,
+        inflight := s.inflight.filter (· != r),
+        succeeded := if res = .added then gvk :: s.succeeded else s.succeeded }
+    else s
+
+def WState.run (s : WState) : List WEv → WState
+  | [] => s
+  | e :: es => (s.step e).run es
 
 /-- what `init()` registers -/
 def staticKinds : List String :=
